@@ -957,7 +957,7 @@ fn replay_channel(case: &str) -> Option<String> {
 // ---------------------------------------------------------------- suite `builder`: every call sequence up to length 3
 // alphabet: n=with_name("x") e=with_name("") r=with_reducer R=with_reducers([r,r]) a=add_reducer w=without_reducer
 //           c=with_capacity(4) z=with_capacity(0) p=with_policy(DropLatest) m=with_middleware M=with_middlewares([m,m]) d=add_middleware
-const ALPHA: &str = "nerRawczpmMd";
+const ALPHA: &str = "nerRawczpmMdD";
 fn run_builder_case(seq: &str) -> Option<(String, String, String)> {
     let log: Log = Arc::new(Mutex::new(vec![]));
     let verdicts = Arc::new(Mutex::new(vec![[V::Continue; 3]; 8]));
@@ -967,6 +967,7 @@ fn run_builder_case(seq: &str) -> Option<(String, String, String)> {
     let (mut name_empty, mut reducers, mut opt_out, mut cap, mut pol_latest, mut mws) = (false, 0usize, false, 16usize, false, 0usize);
     let mk_r = |i: usize| -> Box<dyn Reducer<St, Ac> + Send + Sync> { Box::new(Rd { id: i, cfg: RCfg { dispatch: true, effect: 0 }, log: log.clone() }) };
     let mk_m = |i: usize| -> Arc<dyn Middleware<St, Ac> + Send + Sync> { Arc::new(Mw { id: i, verdicts: verdicts.clone(), remove_effect: remove.clone(), log: log.clone() }) };
+    let shared_m = mk_m(7);
     for ch in seq.chars() {
         b = match ch {
             'n' => { name_empty = false; b.with_name("x".to_string()) }
@@ -981,6 +982,8 @@ fn run_builder_case(seq: &str) -> Option<(String, String, String)> {
             'm' => { mws = 1; b.with_middleware(mk_m(0)) }
             'M' => { mws = 2; b.with_middlewares(vec![mk_m(0), mk_m(1)]) }
             'd' => { mws += 1; b.add_middleware(mk_m(mws - 1)) }
+            // the very same middleware object again: add_* appends whatever it is given
+            'D' => { mws += 1; b.add_middleware(shared_m.clone()) }
             _ => b,
         };
     }
@@ -1894,7 +1897,38 @@ fn run_twostores_sharedsub() -> Option<(String, String, String)> {
     control.stop();
     None
 }
+// the same subscriber object registered with two stores: unsubscribing it from one of them tells it so exactly once,
+// whatever the other store holds (C19 / C09)
+fn run_twostores_sharedrelease() -> Option<(String, String, String)> {
+    let mk = || {
+        StoreBuilder::<St, Ac>::new(0)
+            .with_name("twin".to_string())
+            .with_reducer(Box::new(crate::reducer::FnReducer::from(|s: &St, a: &Ac| DispatchOp::Dispatch(s + a, None))))
+            .build()
+            .unwrap()
+    };
+    for shared in [false, true] {
+        let a = mk();
+        let b = mk();
+        let log: Log = Arc::new(Mutex::new(vec![]));
+        let sub: Arc<dyn Subscriber<St, Ac> + Send + Sync> = Arc::new(Sb { id: 0, log: log.clone() });
+        let ha = a.add_subscriber(sub.clone());
+        let _hb = if shared { Some(b.add_subscriber(sub.clone())) } else { None };
+        drop(sub);
+        ha.unsubscribe();
+        let released = log.lock().unwrap().iter().filter(|e| matches!(e, Ev::Unsub(0))).count();
+        a.stop();
+        b.stop();
+        if released != 1 {
+            return Some(("O-C09-unsubscribe-releases-target-once".into(), format!("unsubscribe() from store A releases the subscriber exactly once (also registered with store B: {})", shared), format!("{} times", released)));
+        }
+    }
+    None
+}
 fn suite_twostores() -> Option<String> {
+    if let Some((ob, exp, got)) = run_twostores_sharedrelease() {
+        return Some(found("twostores", &ob, "twostores sharedrelease".to_string(), exp, got));
+    }
     if let Some((ob, exp, got)) = run_twostores_sharedsub() {
         return Some(found("twostores", &ob, "twostores sharedsub".to_string(), exp, got));
     }
@@ -1909,6 +1943,9 @@ fn suite_twostores() -> Option<String> {
     None
 }
 fn replay_twostores(case: &str) -> Option<String> {
+    if case.contains("sharedrelease") {
+        return run_twostores_sharedrelease().map(|(ob, exp, got)| found("twostores", &ob, case.to_string(), exp, got));
+    }
     if case.contains("sharedsub") {
         return run_twostores_sharedsub().map(|(ob, exp, got)| found("twostores", &ob, case.to_string(), exp, got));
     }
@@ -2493,6 +2530,7 @@ fn run_balance_case(policy: char, cap: usize, n: usize, after: usize, with_mw: b
     }
     let store = b.build().unwrap();
     let mut dispatched = 0usize;
+    let mut rejected_early = 0usize;
     for a in 1..=n as Ac {
         // every dispatch on the open store counts as dispatched, whatever the channel does with it
         let _ = StoreImpl::dispatch(&*store, a);
@@ -2504,8 +2542,33 @@ fn run_balance_case(policy: char, cap: usize, n: usize, after: usize, with_mw: b
         }
     }
     if park {
-        // close while the queue is still full: the marker itself competes for room under the drop policies
-        store.close();
+        // close while the queue is still full: the marker itself competes for room under the drop policies.  Neither
+        // close() nor a dispatch racing with it may wait for the parked reducer (C06: a drop policy never waits)
+        let sc = store.clone();
+        let (cd_tx, cd_rx) = mpsc::channel::<()>();
+        let closer = std::thread::spawn(move || {
+            sc.close();
+            let _ = cd_tx.send(());
+        });
+        let closed_in_time = cd_rx.recv_timeout(Duration::from_secs(3)).is_ok();
+        let sd = store.clone();
+        let (dd_tx, dd_rx) = mpsc::channel::<()>();
+        let racer = std::thread::spawn(move || {
+            let _ = StoreImpl::dispatch(&*sd, 77);
+            let _ = dd_tx.send(());
+        });
+        let dispatched_in_time = dd_rx.recv_timeout(Duration::from_secs(3)).is_ok();
+        if !closed_in_time || !dispatched_in_time {
+            let _ = gate_tx.send(());
+            let _ = closer.join();
+            let _ = racer.join();
+            store.stop();
+            return Some(("O-C06-send-never-blocks".into(), "with a drop policy neither close() nor a dispatch racing with it waits for the parked reducer".into(), format!("close() returned within 3 s: {}, dispatch returned within 3 s: {}", closed_in_time, dispatched_in_time)));
+        }
+        let _ = closer.join();
+        let _ = racer.join();
+        // the racing dispatch came after close(): it was rejected by the store's own dispatch
+        rejected_early = 1;
     }
     let _ = gate_tx.send(());
     store.stop();
@@ -2535,6 +2598,8 @@ fn run_balance_case(policy: char, cap: usize, n: usize, after: usize, with_mw: b
     if m.effect_issued != 0 {
         return Some(("O-C18-do_effect-counts".into(), "effect_issued == 0 (the reducer returns no effects)".into(), format!("{}", m.effect_issued)));
     }
+    let rejected = rejected + rejected_early;
+    let after = after + rejected_early;
     if rejected != after || m.error_occurred != rejected {
         return Some(("O-C18-dispatch-open-counts-nothing".into(), format!("error_occurred == {} dispatches rejected after close ({} attempted)", rejected, after), format!("{}", m.error_occurred)));
     }
